@@ -79,6 +79,16 @@ def fits_py(e):
     return True
 
 
+def footer_ids(t):
+    """Ids of the tagged leaves drawn in the footer of a Frame that also has a header (coverage only)."""
+    out = set()
+    if t["k"] == "Frame" and t["o"][0] and t["o"][1] and len(t["c"]) == 3:
+        out |= {lt["o"][0] for lt, _bg in wtree.tagged_leaves(t["c"][2])}
+    for x in t["c"]:
+        out |= footer_ids(x)
+    return out
+
+
 GEOM_KINDS = ("Pile", "Columns", "Frame", "Overlay", "GridFlow", "ListBox", "Padding", "Filler", "LineBox", "AttrMap", "BoxAdapter")
 
 
@@ -195,6 +205,7 @@ def _coverage(chk, traces, good):
         if r0["rcur"]:
             bump("cursor_compared")
         ids = {lf["id"]: lf for lf in r0["leaves"]}
+        foot = footer_ids(tr["term"])
         prev = r0
         for si, e in enumerate(tr["ev"][1:]):
             if e["t"] != "step":
@@ -219,6 +230,10 @@ def _coverage(chk, traces, good):
                 continue
             if e["t"] == "press":
                 bump("press_on_leaf")
+                if pid in foot:
+                    bump("press_on_footer_of_frame_with_header")
+                    if lf["h"] > 1 or lf["kind"] == "TEdit":
+                        bump("press_on_footer_of_frame_with_header.leaf_uses_the_row")
                 nontriv.add((json.dumps(tr["term"]), tuple(tr["size"]), "p", e["col"], e["row"]))
             elif lf["sel"] and lf["cursor"]:
                 bump("move_on_cursor_leaf")
@@ -235,12 +250,13 @@ def _coverage(chk, traces, good):
     chk.cov["clause_counts"] = cc
     chk.cov["distinct_nontrivial"] = len(nontriv)
     chk.cov["rule"] = ("terms enumerated by TLC from spec/WidgetTree.tla with probe / tagged Edit / tagged SelectableIcon leaves under Padding, Filler, LineBox, AttrMap, "
-                       "BoxAdapter, Pile, Columns, Frame, Overlay, GridFlow, ListBox (all well-formed depth<=1 terms, TLC-simulated deeper ones); each at box/flow/fixed "
+                       "BoxAdapter, Pile, Columns, Frame (body, header and footer: its arity is not bounded by the child bound of the list-like containers), Overlay, GridFlow, "
+                       "ListBox (all well-formed depth<=1 terms, TLC-simulated deeper ones); each at box/flow/fixed "
                        "sizes of every mode it reports; move cells: corners of the leaves' areas first, then random; then a history of keys / application cursor moves, "
                        "the reported cursor taken before the next rendering; non-trivial = distinct (term, size, cell) press or move events on a foreground leaf "
                        "and judged history steps at a size satisfying the fit precondition")
     chk.cov["exhaustive"] = True
-    for need in ("size_fits", "cursor_compared", "press_on_leaf", "move_accepted", "move_refused", "move_on_real_TEdit", "move_on_corner_of_leaf_area",
+    for need in ("size_fits", "cursor_compared", "press_on_leaf", "press_on_footer_of_frame_with_header", "press_on_footer_of_frame_with_header.leaf_uses_the_row", "move_accepted", "move_refused", "move_on_real_TEdit", "move_on_corner_of_leaf_area",
                  "move_on_cell_touching_another_cursor_leaf", "step.key", "step.setpos", "step.probecur", "step_judged", "step_judged.key_handled",
                  "step_judged.cursor_moved", "step_judged.cursor_moved_inside_ListBox") + tuple(
             "fit.kind." + k for k in ("Pile", "Columns", "Frame", "Overlay", "GridFlow", "ListBox", "Padding", "Filler", "LineBox", "AttrMap", "BoxAdapter")):
